@@ -25,6 +25,7 @@ type lifeAction struct {
 type lifeSpec struct {
 	PageSize int
 	Sizes    [][2]int // per row: blob length, text length
+	Shared   bool     // the first select scans every row into the same variables and keeps the results
 	Actions  []lifeAction
 }
 
@@ -55,6 +56,7 @@ func TestC18Lifetime(t *testing.T) {
 			for i := 0; i < n; i++ {
 				s.Sizes = append(s.Sizes, [2]int{rapid.SampledFrom(sizes).Draw(t, "bl"), rapid.SampledFrom(sizes).Draw(t, "tl")})
 			}
+			s.Shared = rapid.Bool().Draw(t, "shared")
 			k := rapid.IntRange(1, 8).Draw(t, "nact")
 			closed := false
 			for i := 0; i < k; i++ {
@@ -104,7 +106,14 @@ func runLife(r *vt.Run, t vt.TB, s lifeSpec) {
 			overflow = true
 		}
 	}
-	r.Case(s, reread, fmt.Sprintf("life:ps=%d", s.PageSize), fmt.Sprintf("life:overflow=%v", overflow), fmt.Sprintf("life:mutate-then-read=%v", reread))
+	shrinking := false
+	for i := 1; i < len(s.Sizes); i++ {
+		if s.Sizes[i][0] > 0 && s.Sizes[i][0] <= s.Sizes[i-1][0] {
+			shrinking = true
+		}
+	}
+	r.Case(s, reread || (s.Shared && shrinking), fmt.Sprintf("life:ps=%d", s.PageSize), fmt.Sprintf("life:overflow=%v", overflow), fmt.Sprintf("life:mutate-then-read=%v", reread),
+		fmt.Sprintf("life:shared-dest=%v", s.Shared), fmt.Sprintf("life:shared-dest-not-growing=%v", s.Shared && shrinking))
 
 	db, err := sqlittle.Open(path)
 	if err != nil {
@@ -122,13 +131,18 @@ func runLife(r *vt.Run, t vt.TB, s lifeSpec) {
 		touched bool
 	}
 	var got []scanned
+	var shared scanned // destination that outlives the callback, as in `var cur T; Select(.., func(r Row){ r.Scan(&cur.b); keep(cur) })`
 	err = db.Select("t", func(row sqlittle.Row) {
 		var id int64
-		var sc scanned
+		var fresh scanned
+		sc := &fresh
+		if s.Shared {
+			sc = &shared
+		}
 		if err := row.Scan(&id, &sc.b, &sc.s); err != nil {
 			panic(err)
 		}
-		got = append(got, sc)
+		got = append(got, *sc)
 	}, "id", "b", "s")
 	if err != nil || len(got) != len(s.Sizes) {
 		r.Harness(t, "initial select: %v (%d rows, want %d)", err, len(got), len(s.Sizes))
